@@ -1,23 +1,22 @@
 (* C12 — property theorems (statements only; the proofs live in the Acme.C12.Proofs... files). *)
 From Coq Require Import ZArith List Bool.
-From Acme.C12 Require Import Proto NetModel Save Load Proj Domain ProofsSel ProofsRT5 ProofsRT7 Proofs.
+From Acme.C12 Require Import Proto NetModel Save Load Proj Domain ProofsSel ProofsRT8 Proofs.
 Import ListNotations.
 Open Scope Z_scope.
 
-(* Save then load reproduces the network.  `proj` orders and prunes the tables of shared
-   definitions as the saver does (a Go network has no tables); everything else is compared as is:
-   entity ids, names, descriptions, creation times, bus type, baud rate, CAN-ID builder and its
-   operations, nodes / interfaces, messages (id, static CAN-ID, size, priority, byte order,
-   timing, send type, receivers), signals with positions, types, units, enums, attributes and
-   assignments.  Proved for every well-formed, in-domain network whose signals are standard or
-   enum signals; the full statement (multiplexer trees included) is
-   Proofs.load_save_full_statement, checked on instances
-   (Proofs.load_save_full_statement_on_a_multiplexer) and by the correspondence run. *)
-Theorem load_save_partial : forall now n,
-  wfb n = true -> in_domain n = true -> net_simple n = true ->
+(* Save then load reproduces the network, for EVERY well-formed network inside the value ranges
+   of the format (multiplexer trees of any depth included).  `canon n` is `n` with the tables of
+   shared definitions pruned to what the buses refer to and put in the saver's order (a Go network
+   has no tables); `proj = canon`.  Everything else is reproduced literally: entity ids, names,
+   descriptions, creation times, bus type, baud rate, CAN-ID builder and its operations, nodes /
+   interfaces, messages (id, static CAN-ID, size, priority, byte order, timing, send type,
+   receivers), signal trees with positions and group membership (fixed / per group), types,
+   units, enums, attributes and assignments on every kind of entity. *)
+Theorem load_save : forall now n,
+  wfb n = true -> in_domain n = true ->
   load now (save n) = Ok (canon n) /\ proj (canon n) = proj n.
-Proof. exact load_save_nomux_lemma. Qed.
-Print Assumptions load_save_partial.
+Proof. exact load_save_lemma. Qed.
+Print Assumptions load_save.
 
 Theorem save_selects : forall mask w,
   (snd (save_outputs mask w) = true <-> forallb (present w) (selected mask) = true) /\
